@@ -191,3 +191,5 @@ Print Assumptions C01_evolve_call_log.
 Print Assumptions C01_evolve_pure.
 Print Assumptions C01_evolve_zero_rejected.
 Print Assumptions C01_evolve_dynamic_spec.
+From CPL Require Import gen.GenFuns_C01 GenProps.GenFunsEquivC01 GenProps.C01Src. (* source tie: gen/GenFuns_C01.v is regenerated from ca_functions.py on every run *)
+Theorem C01_source_tie : forall N r : nat, src_index_strides (src_range 0 (Z.of_nat N)) (Z.of_nat (2 * r + 1)) = (let len := length (ext_idx N r) in if len + 1 <? 2 * r + 1 then Raise ValueError else if len + 1 =? 2 * r + 1 then Ok nil else Ok (map (map Z.of_nat) (index_strides N r))). Proof. exact C01_source_translation_agrees. Qed. Print Assumptions C01_source_tie.
